@@ -51,6 +51,8 @@ class ServicesManager:
             service.send_message(MsgType.CONTROL, reason.encode('utf8'))
 
         async with sid_lock:  # wait for the previous connection(s) of this service to be closed and cleaned
+            # the connections served in the meantime may have changed the stored state
+            service.reload()
             async with self._access_dict_lock:
                 self._service_dict[sid] = service
             try:
